@@ -175,6 +175,13 @@ func c15(r *ev.Run) {
 		return "ok", ""
 	})
 	r.Scenario("registry-stable", func(raw []byte) (string, string) { return registryStable() })
+	{
+		var cs []c15Case
+		for _, n := range []string{"OCRA-1:HOTP-SHA1-6:QN08", "OCRA-1:HOTP-SHA512-8:C-QN08-PSHA1", "OCRA-1:HOTP-SHA256-8:QA08-S064-T1M", "OCRA-1:HOTP-SHA1-7:QN08", "ocra-1:hotp-sha256-9:c-qh10-psha512-s128-t48h", "OCRA-1:HOTP-SHA1-6:QN08-T90S", "OCRA-2:HOTP-SHA1-6:QN08", "OCRA-1:HOTP-SHA1-6:QN08-T1.5M", "OCRA-1:HOTP-SHA1-11:QN08", ""} {
+			cs = append(cs, c15Case{n, "grammar"})
+		}
+		afterWarmups(r, "suite-fidelity-after-other-operations", cs, suiteFidelity)
+	}
 	if ReplayOnly {
 		return
 	}
